@@ -80,7 +80,7 @@ def prepare_crdt(engine):
     src = os.path.join(REPO, "crates", "radicle-crdt", "src")
     copy_tree_rewritten(src, os.path.join(dst, "src"))
     lib = open(os.path.join(dst, "src", "lib.rs")).read()
-    hook = '\npub mod vcoll;\n#[cfg(kani)]\n#[path = "/verif/harness/shadow/crdt_harness.rs"]\nmod verif_kani;\n'
+    hook = '\npub mod vcoll;\n#[cfg(kani)]\n#[path = "/verif/harness/shadow/crdt_vcoll_harness.rs"]\nmod verif_kani_vcoll;\n'
     if hook not in lib:
         write_if_changed(os.path.join(dst, "src", "lib.rs"), lib + hook)
     shutil.copyfile(os.path.join(VERIF, "harness", "shadow", "vcoll.rs"), os.path.join(dst, "src", "vcoll.rs")) if not os.path.exists(os.path.join(dst, "src", "vcoll.rs")) or open(os.path.join(dst, "src", "vcoll.rs")).read() != open(os.path.join(VERIF, "harness", "shadow", "vcoll.rs")).read() else None
